@@ -953,3 +953,18 @@ def forbidden_variant_content(t):
     if k == "e":
         return forbidden_variant_content(t[2])
     return any(forbidden_variant_content(x) for x in t[1])
+
+
+def plain_name(name):
+    """a catalogue name without its flavour markers (the model's type): aCt -> at, V[S] -> v[s]"""
+    out = []
+    i = 0
+    while i < len(name):
+        c = name[i]
+        if c == "a" and i + 1 < len(name) and name[i + 1] in ARRAY_FLAVOUR:
+            out.append("a")
+            i += 2
+            continue
+        out.append(BASE_FLAVOUR.get(c, "v" if c in VARIANT_FLAVOUR else c))
+        i += 1
+    return "".join(out)
